@@ -523,6 +523,14 @@ pub fn c15(tier: Tier, seed: u64) -> Verdict {
                         m.violation = Some(c15_violation(json!({"kind": "value", "domain": "f32", "bits": format!("{:#010x}", bits as u32)}), d));
                         break;
                     }
+                    if bits % 16 == 0 {
+                        // the same value widened to f64 (exactly representable as f32)
+                        let w = (f32::from_bits(bits as u32) as f64).to_bits();
+                        if let Err(d) = check_f64(w) {
+                            m.violation = Some(c15_violation(json!({"kind": "value", "domain": "f64", "bits": format!("{w:#018x}")}), d));
+                            break;
+                        }
+                    }
                     if f32_nontrivial(bits as u32) && (bits & 0xfff) < 4 {
                         m.distinct.insert(digest(&("f32", bits)));
                     }
@@ -544,6 +552,12 @@ pub fn c15(tier: Tier, seed: u64) -> Verdict {
                             m.evaluations += 1;
                             if let Err(d) = check_f32(bits) {
                                 m.violation = Some(c15_violation(json!({"kind": "value", "domain": "f32", "bits": format!("{bits:#010x}")}), d));
+                                break 'f;
+                            }
+                            let w = (f32::from_bits(bits) as f64).to_bits();
+                            m.evaluations += 1;
+                            if let Err(d) = check_f64(w) {
+                                m.violation = Some(c15_violation(json!({"kind": "value", "domain": "f64", "bits": format!("{w:#018x}")}), d));
                                 break 'f;
                             }
                             if f32_nontrivial(bits) {
@@ -613,7 +627,8 @@ pub fn c15(tier: Tier, seed: u64) -> Verdict {
     if merged.violation.is_none() {
         let n = tier.pick(6000, 150_000);
         let strat = || {
-            (vec(text_strategy(40), 0..=8), prop_oneof![3 => Just(None), 2 => (0u16..=8).prop_map(Some)])
+            // pieces are short, medium or long (block-sized and beyond), so that any internal staging is crossed
+            (vec(prop_oneof![4 => text_strategy(40), 2 => text_strategy(300), 1 => text_strategy(1500)], 0..=8), prop_oneof![3 => Just(None), 2 => (0u16..=8).prop_map(Some)])
                 .prop_map(|(pieces, err_at)| Pieces { pieces, err_at, panic_at: None })
                 .boxed()
         };
@@ -823,6 +838,41 @@ pub fn c16(tier: Tier, seed: u64) -> Verdict {
                 }
             }
         }
+        // long inputs: a multi-byte character / surrogate pair / invalid fragment at every offset up to a few
+        // hundred units, so that any block-wise or staged decoding has its boundaries crossed
+        if m.violation.is_none() {
+            let tails: [&[u16]; 5] = [&[0xd834, 0xdd1e], &[0xd800], &[0xdc00, 0xdc00], &[0xdbff, 0xdfff, 0x41], &[0x20ac]];
+            'l: for n in (0..=700usize).filter(|n| n % SHARDS == shard) {
+                for (ti, tail) in tails.iter().enumerate() {
+                    let mut u: Vec<u16> = std::iter::repeat_n(0x78u16, n).collect();
+                    u.extend_from_slice(tail);
+                    u.extend_from_slice(&[0x79, 0x7a]);
+                    m.evaluations += 1;
+                    if let Err(d) = check_utf16(&u) {
+                        m.violation = Some(c16_violation(json!({"kind": "units", "units": u}), d));
+                        break 'l;
+                    }
+                    m.distinct.insert(digest(&("long16", n, ti)));
+                }
+                let btails: [&[u8]; 6] = [b"\xf0\x9d\x84\x9e", b"\xe2\x82\xac", b"\xff", b"\xf0\x9d\x84", b"\xc3\xa9", b"\xed\xa0\x80"];
+                for (ti, tail) in btails.iter().enumerate() {
+                    for fill in [&b"x"[..], &"é".as_bytes()[..]] {
+                        let mut b: Vec<u8> = Vec::new();
+                        while b.len() + fill.len() <= n {
+                            b.extend_from_slice(fill);
+                        }
+                        b.extend_from_slice(tail);
+                        b.extend_from_slice(b"0123456789abcdefghijklmnopqrstuvwxyz0123456789");
+                        m.evaluations += 1;
+                        if let Err(d) = check_utf8(&b) {
+                            m.violation = Some(c16_violation(json!({"kind": "bytes", "hex": hex_encode(&b)}), d));
+                            break 'l;
+                        }
+                        m.distinct.insert(digest(&("long8", n, ti, fill.len())));
+                    }
+                }
+            }
+        }
         if m.violation.is_none() {
             if let Some(d) = heap_clean() {
                 m.violation = Some(Violation { case: json!({"kind": "bytes", "hex": ""}), clause: "C16.heap".into(), step: 0, detail: d });
@@ -851,6 +901,7 @@ pub fn c16(tier: Tier, seed: u64) -> Verdict {
             prop_oneof![
                 3 => vec(select(BYTE_ALPHA.to_vec()), 5..=7),
                 3 => vec(prop_oneof![3 => select(vc.clone()), 2 => select(bc.clone())], 0..=24).prop_map(|v| v.concat()),
+                1 => vec(prop_oneof![12 => select(vc.clone()), 1 => select(bc.clone())], 20..=160).prop_map(|v| v.concat()),
                 1 => vec(any::<u8>(), 0..=40),
             ]
             .boxed()
@@ -883,7 +934,16 @@ pub fn c16(tier: Tier, seed: u64) -> Verdict {
     }
     if merged.violation.is_none() {
         let n = tier.pick(150_000, 2_000_000);
-        let strat = || prop_oneof![3 => vec(select(U16_ALPHA.to_vec()), 0..=30), 1 => vec(any::<u16>(), 0..=30)].boxed();
+        let strat = || {
+            prop_oneof![
+                3 => vec(select(U16_ALPHA.to_vec()), 0..=30),
+                1 => vec(any::<u16>(), 0..=30),
+                // long inputs, mostly valid (pairs and BMP units), occasionally a lone surrogate
+                1 => vec(prop_oneof![10 => Just(vec![0x78u16]), 4 => Just(vec![0xd834u16, 0xdd1e]), 2 => Just(vec![0x20acu16]), 1 => Just(vec![0xd800u16]), 1 => Just(vec![0xdc00u16])], 100..=400)
+                    .prop_map(|v| v.concat()),
+            ]
+            .boxed()
+        };
         let m = run_sharded("C16", seed, 1, n, strat, |u: &Vec<u16>, _| {
             let mut st = CaseStats::default();
             st.evaluations = 1;
